@@ -251,6 +251,22 @@ def run_case(case, work, rec):
                     rec.violation(f"validation accepted but the field list {comps} of a box read {'raised' if got is None else 'differs from the FAB that names its index range'}: {descr}",
                                   key=key + ("flist",), witness={"mutations": muts, "level": lv, "box": bi, "fields": comps})
                     return
+            # a non-decreasing list that repeats a field and skips as many as it repeats (as long as the span it
+            # covers): refusing it is fine, other fields' values are not
+            for comps in ([0, 0, 2], [nf - 3, nf - 1, nf - 1]):
+                for (lv, bi), e in list(exps.items())[:2]:
+                    if e is None:
+                        continue
+                    try:
+                        got = pck[comps][lv][bi]
+                    except Exception:
+                        rec.skip("a selection that names a field twice was refused")
+                        continue
+                    rec.count("field_list_reads_with_a_repeated_field")
+                    if not (isinstance(got, np.ndarray) and refparse.biteq(got, e[..., comps])):
+                        rec.violation(f"validation accepted but the field list {comps} of a box read differs from the FAB that names its index range: {descr}",
+                                      key=key + ("frep",), witness={"mutations": muts, "level": lv, "box": bi, "fields": comps})
+                        return
         rec.count("accepted_and_read")
         for kd, mu in zip(kinds, muts):
             if kd == "tol":
